@@ -6,6 +6,8 @@
   C10-MISORDER the buffer is reset for a late packet exactly when it is >= 100 positions late (constant threshold)
   C10-SERIAL   serial-number discipline (rule set of C17) inside jitterbuffer.py, incl. `is None` sentinels
   C10-FEED     the receiver sends a PLI iff add()'s first result is true and queues exactly its second result
+  C10-ACCEPT   _handle_rtp_packet evaluated with stubbed collaborators: every packet of a negotiated codec (empty payloads and
+               retransmissions included) is handed to add() exactly once with its own sequence number, timestamp and depayloaded data
   C10-FRAMES   add() evaluated on loss-free arrival schedules (frame-size patterns x prefetch 0..3 x one adjacent swap x origin at the
                16-bit wrap): whole frames, in order, every packet used once, nothing withheld, no spurious PLI
   C10-OVERFLOW add() evaluated with a packet lost for good and a burst gap at the moment of overflow: every released frame is a
@@ -212,6 +214,8 @@ def run(rep: Report, prog: Program, tier: str) -> None:
         else:
             rep.fail(mk_finding(prog, PROP, "C10-FEED", h, assign, msg, construct="feed: " + what))
 
+    accept_rule(rep, prog, PROP, "C10-ACCEPT")
+
     # ---- C10-FRAMES (finite evaluation of add() over enumerated loss-free arrival schedules)
     rep.rule("C10-FRAMES", "loss-free arrival: whole frames, in order, every packet used once", min_instances=60)
     import itertools
@@ -349,3 +353,86 @@ def run(rep: Report, prog: Program, tier: str) -> None:
             rep.fail(mk_finding(prog, PROP, "C10-OVERFLOW", sr, sr.node, f"[{label}] " + "; ".join(problems), construct="overflow: " + problems[0].split(",")[0].split(" #")[0][:50]))
         else:
             rep.ok("C10-OVERFLOW", label, sample=f"{len(out)} frames released in order (tails only right after a discard), PLI raised")
+
+
+def accept_rule(rep: Report, prog: Program, PROP: str, RULE: str) -> None:
+    """_handle_rtp_packet evaluated with stubbed collaborators: every packet of a negotiated codec - also one with an empty payload
+    (padding probe / empty audio frame) and a retransmission carrying one - is handed to JitterBuffer.add() exactly once, with
+    its own sequence number and timestamp and the depayloaded data.  A packet dropped between the transport and the buffer is a
+    permanent hole in a loss-free stream: frames behind it are withheld until the buffer overflows."""
+    from types import SimpleNamespace
+
+    from engine.index import Unknown
+    from engine.peval import Evaluator, Raised
+
+    from .objhook import make_hook
+    rep.rule(RULE, "every packet of a negotiated codec reaches JitterBuffer.add() exactly once with its own numbers", min_instances=8)
+    h = prog.func("rtcrtpreceiver.RTCRtpReceiver._handle_rtp_packet")
+    calls: List = []
+    sent: List = []
+
+    def extra(call: ast.Call, ev: Evaluator):
+        name = unparse(call.func)
+        if name.endswith("__jitter_buffer.add"):
+            p = ev.ev(call.args[0])
+            calls.append(p)
+            return (False, None)
+        if name.endswith("__log_debug") or name.endswith("__log_warning"):
+            return None
+        if name.endswith("_send_rtcp_pli") or name.endswith("_send_rtcp_nack") or name.endswith("_send_rtcp"):
+            sent.append(name)
+            return None
+        if name == "depayload":
+            payload = ev.ev(call.args[1])
+            if payload[:1] == b"\xff":
+                raise Raised("ValueError", call)
+            return b"D" + payload
+        if name in ("clock.current_datetime", "current_datetime"):
+            return 0
+        if name == "time.time":
+            return 100.0
+        if name == "isinstance" and len(call.args) == 2 and unparse(call.args[1]) in ("int", "str", "bytes"):
+            return isinstance(ev.ev(call.args[0]), {"int": int, "str": str, "bytes": bytes}[unparse(call.args[1])])
+        return NotImplemented
+    oh = make_hook(prog, extra)
+    ev0 = Evaluator(prog, h.module, None, {}, oh)
+
+    def receiver(nack: bool):
+        r = SimpleNamespace(__cls__=h.cls)
+        r._enabled = True
+        for k, v in {"__remote_bitrate_estimator": None, "__rtcp_ssrc": 7, "__active_ssrc": {}, "__remote_streams": {}, "__rtx_ssrc": {2000: 1000},
+                     "__decoder_thread": None, "__jitter_buffer": SimpleNamespace(), "__kind": "video"}.items():
+            setattr(r, k, v)
+        setattr(r, "__codecs", {96: SimpleNamespace(name="VP8", mimeType="video/VP8", clockRate=90000, parameters={}),
+                                97: SimpleNamespace(name="rtx", mimeType="video/rtx", clockRate=90000, parameters={"apt": 96})})
+        setattr(r, "__nack_generator", oh.instantiate(prog.cls("rtcrtpreceiver.NackGenerator"), [], {}, ev0) if nack else None)
+        return r
+
+    def packet(pt, ssrc, seq, ts, payload):
+        p = oh.instantiate(prog.cls("rtp.RtpPacket"), [], dict(payload_type=pt, sequence_number=seq, timestamp=ts, ssrc=ssrc, payload=payload), ev0)
+        return p
+    cases = [
+        ("media packet", packet(96, 1000, 500, 9000, b"abc"), (500, 9000, b"Dabc")),
+        ("media packet with an empty payload (padding probe)", packet(96, 1000, 501, 9000, b""), (501, 9000, b"")),
+        ("media packet, sequence number 0", packet(96, 1000, 0, 0, b"x"), (0, 0, b"Dx")),
+        ("retransmission", packet(97, 2000, 77, 9000, b"\x01\xf4abc"), (500, 9000, b"Dabc")),
+        ("retransmission of an empty packet", packet(97, 2000, 78, 9000, b"\x01\xf5"), (501, 9000, b"")),
+        ("retransmission with original sequence number 0", packet(97, 2000, 79, 12000, b"\x00\x00q"), (0, 12000, b"Dq")),
+    ]
+    for nack in (False, True):
+        for label, pkt, (seq, ts, data) in cases:
+            label = f"{label}, NACK generator {'on' if nack else 'off'}"
+            del calls[:]
+            try:
+                oh.run_method(h, receiver(nack), [pkt, 1234], {})
+            except Raised as ex:
+                rep.fail(mk_finding(prog, PROP, RULE, h, getattr(ex, "node", None), f"[{label}] _handle_rtp_packet raises {ex.name}", construct=f"accept raises {ex.name}"))
+                continue
+            except Unknown as ex:
+                raise AnalysisError(f"{RULE}: cannot evaluate _handle_rtp_packet [{label}]: {ex}")
+            got = [(p.sequence_number, p.timestamp, getattr(p, "_data", None)) for p in calls]
+            if got == [(seq, ts, data)]:
+                rep.ok(RULE, label, sample=f"add() called once with seq {seq}, ts {ts}, data {data!r}")
+            else:
+                rep.fail(mk_finding(prog, PROP, RULE, h, h.node, f"[{label}] JitterBuffer.add() receives {got or 'nothing'}; expected exactly one packet (seq {seq}, ts {ts}, data {data!r}): "
+                                    "a dropped packet is a permanent hole in a loss-free stream", construct=f"accept: {label.split(',')[0]}"))
